@@ -29,10 +29,10 @@ func init() {
 	props["C11"] = cli("C10 worlds plus destinations absent / never written / independent / partially equal; sum-copy, then library reads of the destination against the model sum, then sum-diff (must be clean), then a deviation written through the library and sum-diff again (must list exactly the deviating slots). Non-trivial: a sum was stored and compared or a deviation was detected; distinct = distinct case hash")
 	props["C18"] = cli("each run builds one file with values needing 17 digits, infinities, NaN, signed zero and holes, executes view or view-raw (selections, windows, header on/off, sort on/off) and compares the parsed output with library fetches / raw slots bitwise; view points are looked up in view-raw. Non-trivial: lines compared; distinct = distinct case hash")
 	props["C20"] = cli("each run executes generate for a seeded layout, maximum, fill on/off at an instant aligned or unaligned to each archive's step (optionally onto an existing path) and checks header, emptiness, completeness, value range and that every coarser slot fully covered by retained finer slots equals their sum. Non-trivial: a filled file or an existing destination was checked; distinct = distinct case hash")
-	c16 := cli("each run is one cell of the grid {view, view-raw, diff, copy, sum, sum-copy, sum-diff, generate} x {all, each id, -2, n} x {default, past, future, beyond the finest / each archive's retention, degenerate, from>until} x {none, text-out unopenable, text-out /dev/full, source missing, source corrupt, destination parent is a file, destination exists, destination missing} x {no text-out, stdout, file}, local and (for read commands) remote, struct and Parse(args), on a seeded world; a recovered panic or a success without evidence of the work is a violation. Non-trivial: the cell executed; distinct = distinct case hash; distinct_states = distinct grid cells")
+	c16 := cli("each run is one cell of the grid {view, view-raw, diff, copy, sum, sum-copy, sum-diff, generate} x {all, each id, -2, n} x {default, past, future, beyond the finest / each archive's retention, degenerate, from>until} x {none, text-out unopenable, text-out /dev/full, source missing, source corrupt, destination parent is a file, destination exists, destination missing, destination header with method 7, last source file with a near-miss layout} x {no text-out, stdout, file}, local and (for read commands) remote, struct and Parse(args), single file or pattern, on a seeded world; a recovered panic, a command that never returns or a success without evidence of the work is a violation (the thorough tier enumerates all 120 960 cells per world). Non-trivial: the cell executed; distinct = distinct case hash; distinct_states = distinct grid cells")
 	c16.level = "fault_enumeration"
 	c16.quick = tierCfg{runs: 30000, budget: 60}
-	c16.thorough = tierCfg{runs: 48384 * 40, budget: 1500} // 40 worlds x the whole enumerated grid
+	c16.thorough = tierCfg{runs: 120960 * 16, budget: 1500} // 16 worlds x the whole enumerated grid
 	props["C16"] = c16
 	c12 := cli("each run serves a seeded tree through the real handlers of ServerCommand over the simulated wire and executes 2-6 read commands (view, view-raw, sum, diff and copy with a remote source; existing and missing files, patterns matching nothing, every archive selection, windows, clock advances between commands) twice at the same simulated instant, against the directory and against the URL; text output, outcome class and (copy) resulting destination bytes must be identical. In a separate share of runs one response is damaged on the wire (truncated, closed, error status, garbage): the command must fail or be unaffected, and the next fault-free request must give the local answer. Non-trivial: a command pair involving at least one HTTP request was compared; distinct = distinct case hash")
 	c12.technique = "deterministic simulation: real net/http client and real server handlers over an in-memory pipe inside a synctest bubble, paired local/remote execution at one simulated instant, wire faults"
